@@ -324,7 +324,8 @@ func (h *SexpHash) TypeCheckField(key Sexp, val Sexp) error {
 		//Q("obsTyp is %T / val = %#v", obsTyp, obsTyp)
 		//Q("declaredTyp is %T / val = %#v", declaredTyp, declaredTyp)
 		if obsTyp != declaredTyp {
-			if obsTyp.RegisteredName == "[]" {
+			if arr, isArr := val.(*SexpArray); isArr && len(arr.Val) == 0 &&
+				obsTyp.RegisteredName == "[]" {
 				if strings.HasPrefix(declaredTyp.RegisteredName, "[]") {
 					// okay to assign empty slice to typed slice
 					goto done
